@@ -7,6 +7,9 @@ from ..core import Run, AnalysisError, dotted, norm
 from ..dim import World, Interp, guard_dimension
 from ..calc import functions
 from ..flow import Fn, kw, node_of, conditions_for, stmt_of, loop_passes, has_subscript, node_calls, numeric_consts
+from ..alg import T
+from ..pyreader import Raised
+from ..gate import GateReader, Dim, Fac, Obj, MagnitudeUse, quantity, dimensioned, qvector
 
 EXPLANATION = (
     "Two layers. Catalogue (exhaustive over every decorated function of laws/definitions/conditions): G1 every validate_input "
@@ -209,206 +212,199 @@ def _k2(run: Run, w: World) -> None:
 
 
 def _k3(run: Run, w: World) -> None:
-    run.rule("K3", "_assert_expected_unit: one entry per element of a sequence argument, every entry reaches assert_equivalent_dimension against the matching expected dimension")
-    f = Fn(w, QD, "_assert_expected_unit")
-    run.require({"value", "expected_units", "param_name", "function_name"} <= set(f.params), "_assert_expected_unit parameters changed")
-    aed = f.calls(AED)
-    run.require(bool(aed), "_assert_expected_unit no longer calls assert_equivalent_dimension")
-    ok = False
-    detail = "no loop over all collected components that calls assert_equivalent_dimension unconditionally"
-    for n, c in aed:
-        loops = [t for t, br in n.lexical_tests if t.kind == "for"]
-        if len(loops) != 1 or len(c.args) < 4:
-            continue
-        lp = loops[0]
-        conds = conditions_for(f.fn, stmt_of(f.fn, c), stop=lp.ast)
-        if conds != []:
-            detail = f"the dimension assertion at line {f.line(c)} is conditional ({[norm(t, 40) if not isinstance(t, str) else t for t, _ in (conds or [])]})"
-            continue
-        it = lp.ast.iter
-        si = f.slice(lp, it)
-        if has_subscript([it]) or (si.calls - {"enumerate", "list", "isinstance", ".append", "zip", "range", "len", "tuple"} - {x for x in si.calls if x.endswith(".append")}):
-            detail = f"the checking loop iterates {norm(it, 60)}, not the whole component list"
-            continue
-        if "value" not in si.params:
-            detail = "the checked list does not derive from the `value` argument"
-            continue
-        # element: arg0 is the loop element
-        tnames = {x.id for x in ast.walk(lp.ast.target) if isinstance(x, ast.Name)}
-        if not (isinstance(c.args[0], ast.Name) and c.args[0].id in tnames):
-            detail = "assert_equivalent_dimension is not given the loop element"
-            continue
-        s3 = f.slice(n, c.args[3])
-        if "expected_units" not in s3.params:
-            detail = "the expected dimension given to assert_equivalent_dimension does not derive from `expected_units`"
-            continue
-        if any(isinstance(x, (ast.Break, ast.Return, ast.Continue)) for s in lp.ast.body for x in ast.walk(s)):
-            detail = "the checking loop can stop early"
-            continue
-        # the list that is iterated is filled by a loop over all values that appends on every path
-        fills = []
-        for ln in [x for x in f.cfg.stmt_nodes() if x.kind == "for" and x is not lp]:
-            sl = f.slice(ln, ln.ast.iter)
-            if "value" in sl.params and not has_subscript(sl.exprs):
-                appended = {dotted(cc.func.value) for x in f.cfg.stmt_nodes() if any(t is ln for t, _ in x.lexical_tests)
-                            for cc in node_calls(x) if isinstance(cc.func, ast.Attribute) and cc.func.attr == "append"}
-                for name in appended:
-                    if name and name in {x.id for x in ast.walk(it) if isinstance(x, ast.Name)}:
-                        if loop_passes(f.cfg, ln, lambda x, name=name: any(isinstance(cc.func, ast.Attribute) and cc.func.attr == "append" and dotted(cc.func.value) == name for cc in node_calls(x))) \
-                                and not any(isinstance(x, (ast.Break, ast.Return, ast.Continue)) for s in ln.ast.body for x in ast.walk(s)):
-                            fills.append(ln)
-        # every appended component is (derived from) the element itself: a constant such as 0 matches every dimension
-        vacuous = None
-        for ln in fills:
-            lt = {x.id for x in ast.walk(ln.ast.target) if isinstance(x, ast.Name)}
-            for x in f.cfg.stmt_nodes():
-                if any(t is ln for t, _ in x.lexical_tests):
-                    for cc in node_calls(x):
-                        if isinstance(cc.func, ast.Attribute) and cc.func.attr == "append" and cc.args \
-                                and not (lt & {y.id for y in ast.walk(cc.args[0]) if isinstance(y, ast.Name)}):
-                            # admissible only where the path condition has established that EVERY component of the element is a zero/inf/NaN value:
-                            # all(is_any_dimension(c.scale_factor) for c in <element>.components)
-                            st_ = stmt_of(f.fn, cc)
-                            conds_ = [t_ for t_, pol_ in (conditions_for(f.fn, st_, stop=ln.ast) or []) if not isinstance(t_, str) and pol_ is True]
-                            established = False
-                            for t_ in conds_:
-                                for al in [y for y in ast.walk(t_) if isinstance(y, ast.Call) and dotted(y.func) == "all" and y.args and isinstance(y.args[0], (ast.GeneratorExp, ast.ListComp))]:
-                                    g_ = al.args[0]
-                                    over_element = any(lt & {z.id for z in ast.walk(gen.iter) if isinstance(z, ast.Name)} for gen in g_.generators)
-                                    tests_any = isinstance(g_.elt, ast.Call) and dotted(g_.elt.func) == "is_any_dimension" and not g_.generators[0].ifs
-                                    if over_element and tests_any:
-                                        established = True
-                            if not established:
-                                vacuous = cc
-        if vacuous is not None:
-            detail = (f"`{norm(vacuous, 60)}` puts a value that does not come from the argument into the list of checked components: "
-                      f"that element of the argument is never dimension-checked (a zero matches every dimension)")
-            continue
-        comp = isinstance(it, ast.Call) and any(isinstance(a, (ast.ListComp, ast.GeneratorExp)) for a in ast.walk(it))
-        if not fills and not comp:
-            # components may also be built by a comprehension over all values
-            sdefs = [d for d in si.def_nodes if isinstance(d.ast, ast.Assign) and isinstance(d.ast.value, (ast.ListComp, ))]
-            if not sdefs:
-                detail = "the list of checked components is not filled for every element of the argument (an element can be skipped)"
-                continue
-        if n in f.cfg.reachable() and all(f.cfg.dominated_by(x, lambda y: y is lp) for x in f.cfg.normal_exits()):
-            ok = True
-    run.ob("K3", "element-coverage")
-    if not ok:
-        run.violate("K3", f"{f.qual}:element-coverage", f.mod, f.fn, detail)
-    # the values list covers the whole sequence: list(value) / [value]
-    run.sample({"function": f.qual, "assertions": [f.line(c) for _, c in aed]})
+    """_assert_expected_unit is EVALUATED (sa/gate.py) on scalars, sequences and vectors of the kinds the decorators accept; what reaches
+    assert_equivalent_dimension is compared with what the property demands. Helper functions, comprehensions, match statements, guard clauses:
+    any shape with this meaning passes."""
+    run.rule("K3", "_assert_expected_unit hands assert_equivalent_dimension, for EVERY element of the argument (a scalar, each element of a sequence, a quantity vector), "
+             "the element itself or its declared dimension together with the matching expected dimension and the parameter's name; a constant stands in only for a vector "
+             "whose components are all zero/inf/NaN")
+    m = run.src.need(QD)
+    fnode = next((s_ for s_ in m.tree.body if isinstance(s_, ast.FunctionDef) and s_.name == "_assert_expected_unit"), None)
+    run.require(fnode is not None, "_assert_expected_unit not found")
+    D = {k: Dim.of(**v) for k, v in {"L": dict(length=1), "T": dict(time=1), "M": dict(mass=1), "A": dict(length=1, time=-2), "F": dict(mass=1, length=1, time=-2),
+                                     "C": dict(current=1), "P": dict(mass=1, length=-1, time=-2)}.items()}
 
+    def zero_like(x) -> bool:
+        return (isinstance(x, int) and not isinstance(x, bool) and x == 0) or (isinstance(x, T) and x.op == "num" and x.val == 0) \
+            or (isinstance(x, Fac) and x.kind in ("zero", "inf", "nan")) or (isinstance(x, Obj) and isinstance(x.attrs.get("scale_factor"), Fac)
+                                                                             and x.attrs["scale_factor"].kind in ("zero", "inf", "nan"))
 
-def _raise_type(f: Fn, n) -> str | None:
-    exc = n.ast.exc
-    if isinstance(exc, ast.Call):
-        return f.callee(n, exc) or dotted(exc.func)
-    return dotted(exc) if exc is not None else None
+    def acceptable(elem) -> tuple[list, bool]:
+        """(arguments that count as a check of this element, is a check required at all)"""
+        if isinstance(elem, Obj) and elem.cls == "QuantityVector":
+            comps = elem.attrs["components"]
+            nonzero = [c for c in comps if not zero_like(c)]
+            if not nonzero:
+                return ["<any-dimension value>"], False
+            return [elem.attrs["dimension"], ("all-of", nonzero)], True
+        if isinstance(elem, Obj) and elem.cls in ("Quantity", "SymQuantity"):
+            return [elem], True
+        if isinstance(elem, Obj):
+            return [elem.attrs["dimension"]], True
+        return [elem], True
+
+    def expected_dim(u):
+        return u.attrs["dimension"] if isinstance(u, Obj) else u
+
+    q1, q2 = quantity("q1", D["L"]), quantity("q2", D["T"])
+    raw = quantity("raw", D["C"], cls="SymQuantity")
+    sym, fun_, idx_, sbl = dimensioned("Symbol", "s", D["M"]), dimensioned("Function", "f", D["T"]), dimensioned("IndexedSymbol", "x", D["P"]), dimensioned("Symbolic", "y", D["F"])
+    vfull, vmixed, vzero = qvector("v", D["A"], ["finite", "finite"]), qvector("w", D["F"], ["zero", "finite", "zero"]), qvector("z", Dim(), ["zero", "zero"])
+    vunitless = qvector("u", Dim(), ["finite", "finite"])
+    vinf = qvector("i", Dim(), ["inf", "nan"])
+    cases = [
+        ("quantity", q1, D["C"]), ("sympy quantity", raw, D["L"]), ("symbol against symbol", sym, fun_), ("symbolic against indexed symbol", sbl, idx_),
+        ("function against dimension", fun_, D["L"]), ("bare number", 5, D["L"]), ("zero", 0, D["L"]),
+        ("sequence against one dimension", [q1, sym, 7], D["C"]), ("sequence against a tuple", [q1, q2, sbl], [D["M"], sym, D["P"]]), ("empty sequence", [], D["L"]),
+        ("vector", vfull, D["M"]), ("vector with some zero components", vmixed, D["C"]), ("zero vector", vzero, D["L"]), ("infinite/NaN vector", vinf, D["L"]),
+        ("unit-less non-zero vector", vunitless, D["L"]), ("sequence of vectors", [vmixed, vzero, vfull], D["T"]), ("vector against a symbol", vfull, sym),
+    ]
+    for label, value, expected in cases:
+        run.ob("K3", label)
+        R = GateReader(m.tree, "quantity_decorator.py")
+        try:
+            R.call("_assert_expected_unit", [value, expected, "PARAM", "FUNC"])
+            raised = None
+        except Raised as r:
+            raised = r
+        except MagnitudeUse as mu:
+            run.violate("K3", f"{QD}:_assert_expected_unit:{label}:magnitude", m, mu.node, f"_assert_expected_unit ({label}): {mu.what} - the verdict depends on the magnitude")
+            continue
+        elems = value if isinstance(value, list) else [value]
+        exps = [expected_dim(u) for u in expected] if isinstance(expected, list) else [expected_dim(expected)] * len(elems)
+        problem = None
+        if raised is not None:
+            problem = f"raises {raised.exc} instead of handing the elements to assert_equivalent_dimension"
+        events = list(R.events)
+        used = [False] * len(events)
+        for i, elem in enumerate(elems):
+            if problem:
+                break
+            acc, required = acceptable(elem)
+            found = False
+            for k_, (arg, pname, fname, exp) in enumerate(events):
+                if used[k_]:
+                    continue
+                ok_arg = False
+                for a_ in acc:
+                    if isinstance(a_, tuple) and a_[0] == "all-of":
+                        continue
+                    if a_ == "<any-dimension value>":
+                        ok_arg = zero_like(arg)
+                    elif isinstance(a_, Obj):
+                        ok_arg = arg is a_
+                    else:
+                        ok_arg = type(arg) is type(a_) and arg == a_
+                    if ok_arg:
+                        break
+                if ok_arg:
+                    if not (isinstance(exp, Dim) and exp == exps[i]):
+                        problem = f"element {i} ({elem!r}) is checked against {exp!r}, not against the declared {exps[i]!r}"
+                    elif not (isinstance(pname, str) and "PARAM" in pname):
+                        problem = f"the check of element {i} does not carry the parameter's name (got {pname!r})"
+                    used[k_] = True
+                    found = True
+                    break
+            if not found and not problem:
+                # a vector may also be checked component by component
+                comp_sets = [a_[1] for a_ in acc if isinstance(a_, tuple) and a_[0] == "all-of"]
+                if comp_sets:
+                    idxs = []
+                    for c_ in comp_sets[0]:
+                        hit = next((k_ for k_, e_ in enumerate(events) if not used[k_] and e_[0] is c_ and isinstance(e_[3], Dim) and e_[3] == exps[i]), None)
+                        if hit is None:
+                            idxs = None
+                            break
+                        idxs.append(hit)
+                    if idxs is not None:
+                        for k_ in idxs:
+                            used[k_] = True
+                        found = True
+            if not found and required and not problem:
+                problem = (f"element {i} ({elem!r}) never reaches assert_equivalent_dimension "
+                           f"(what reaches it: {[e_[0] for e_ in events]!r}) - it is skipped, replaced by a constant, or the sequence is cut short")
+        if not problem:
+            extra = [e_ for k_, e_ in enumerate(events) if not used[k_] and not zero_like(e_[0])]
+            # components of an all-zero vector checked one by one are harmless; anything else that is checked but is no element is a defect of the bookkeeping
+            if extra:
+                problem = f"assert_equivalent_dimension is also given {[e_[0] for e_ in extra]!r}, which is no element of the argument"
+        if problem:
+            run.violate("K3", f"{QD}:_assert_expected_unit:element-coverage:{label}", m, fnode, f"_assert_expected_unit, {label}: {problem}")
+    run.sample({"function": f"{QD}:_assert_expected_unit", "cases": [c[0] for c in cases]})
 
 
 def _k4(run: Run, w: World) -> None:
-    run.rule("K4", "assert_equivalent_dimension: every non-escaping normal exit is dominated by the number-vs-dimensional test (TypeError) and the equivalent_dims test (UnitsError < ValueError), angle erased on both operands")
-    f = Fn(w, DIMS, "assert_equivalent_dimension", inline=True)
-    run.require({"arg", "expected_unit"} <= set(f.params), "assert_equivalent_dimension parameters changed")
-    tests = [n for n in f.cfg.stmt_nodes() if n.kind == "test" and isinstance(n.ast, ast.If)]
-
-    def test_calls(n) -> set:
-        return {dotted(c.func) or "" for c in ast.walk(n.ast.test) if isinstance(c, ast.Call)}
-
-    def raising(n, exc_quals) -> bool:
-        # the true branch of the test consists of a raise of one of exc_quals
-        body = n.ast.body
-        if len(body) != 1 or not isinstance(body[0], ast.Raise):
-            return False
-        rn = f.cfg.of_stmt.get(id(body[0]))
-        return rn is not None and _raise_type(f, rn) in exc_quals
-
-    t1 = [n for n in tests if "dimsys_SI.is_dimensionless" in test_calls(n) and raising(n, {"builtins.TypeError"}) and _t1_shape(n.ast.test)]
-    t2 = [n for n in tests if "dimsys_SI.equivalent_dims" in test_calls(n) and raising(n, {"symplyphysics.core.errors.UnitsError"}) and _t2_shape(n.ast.test)]
-    escapes = []
-    for n in f.cfg.returns():
-        conds = conditions_for(f.fn, n.ast) or []
-        inner = [(t, p) for t, p in conds if not isinstance(t, str)]
-        # an escape return: under a test made only of is_any_dimension(...) / isinstance(..., AnyDimension)
-        if inner and _escape_test(f, inner[-1][0]) and inner[-1][1] is True:
-            escapes.append(n)
-    for x in f.cfg.normal_exits():
-        run.ob("K4", f"exit@{norm(x.ast, 50) if x.ast is not None else 'end'}")
-        if x in escapes:
-            continue
-        d1 = f.cfg.dominated_by(x, lambda y: y in t1)
-        d2 = f.cfg.dominated_by(x, lambda y: y in t2)
-        if not (d1 and d2):
-            missing = [] if d1 else ["is_dimensionless(arg) and not is_dimensionless(expected) -> TypeError"]
-            missing += [] if d2 else ["not equivalent_dims(arg, expected) -> UnitsError"]
-            run.violate("K4", f"{f.qual}:exit:{norm(x.ast, 60) if x.ast is not None else 'end'}", f.mod, x.ast or f.fn,
-                        "a normal exit of assert_equivalent_dimension is reachable without " + " / ".join(missing))
-    # angle erasure on both operands at the comparison tests
-    for t in t1 + t2:
-        for var in ("arg", "expected_unit"):
-            run.ob("K4", f"angle-erasure:{var}@{f.line(t)}")
-            ds = f.cfg.reaching().get(t, {}).get(var, frozenset())
-            good = bool(ds) and all(_is_angle_subs(d) for d in ds)
-            if not good:
-                run.violate("K4", f"{f.qual}:angle:{var}", f.mod, t.ast,
-                            f"`{var}` reaches the dimension comparison without the angle->1 substitution on some path")
+    """assert_equivalent_dimension is EVALUATED (sa/gate.py) on every combination of argument kind x expected kind x dimensions (angle included);
+    its outcome - return, TypeError, UnitsError - is compared with the property's table. K6: the scale factor is an opaque value of which only
+    is_number / is_any_dimension can be asked; anything else is a use of the magnitude."""
+    run.rule("K4", "assert_equivalent_dimension returns exactly for equivalent dimensions (angle erased on both sides; zero/inf/NaN values and any_dimension match anything), "
+             "raises TypeError for a dimensionless argument against a dimensional expectation and UnitsError (a ValueError) for any other mismatch")
+    run.rule("K6", "the scale factor of the argument is used only by is_number, is_any_dimension and the error text: the verdict cannot depend on magnitude")
+    m = run.src.need(DIMS)
+    fnode = next((s_ for s_ in m.tree.body if isinstance(s_, ast.FunctionDef) and s_.name == "assert_equivalent_dimension"), None)
+    run.require(fnode is not None, "assert_equivalent_dimension not found")
+    dims = {"1": Dim(), "angle": Dim.of(angle=1), "length": Dim.of(length=1), "angle*length": Dim.of(angle=1, length=1), "time": Dim.of(time=1),
+            "length/time": Dim.of(length=1, time=-1), "angle/time": Dim.of(angle=1, time=-1), "1/time": Dim.of(time=-1)}
+    arg_kinds = ["quantity", "zero quantity", "infinite quantity", "NaN quantity", "symbolic quantity", "dimension"]
+    exp_kinds = ["dimension", "quantity", "zero quantity"]  # any_dimension as a declared dimension is outside the property (and no catalogue guard uses it: G2)
+    reported = set()
+    magnitude_reported = False
+    n_cases = 0
+    for an, a in dims.items():
+        for en, e in dims.items():
+            for ak in arg_kinds:
+                for ek in exp_kinds:
+                    arg = a if ak == "dimension" else quantity("arg", a, {"quantity": "finite", "zero quantity": "zero", "infinite quantity": "inf", "NaN quantity": "nan",
+                                                                            "symbolic quantity": "symbolic"}[ak], cls="SymQuantity" if ak == "symbolic quantity" else "Quantity")
+                    exp = {"dimension": e, "quantity": quantity("exp", e), "zero quantity": quantity("exp0", e, "zero")}[ek]
+                    n_cases += 1
+                    R = GateReader(m.tree, "dimensions.py")
+                    try:
+                        got = R.call("assert_equivalent_dimension", [arg, "PARAM", "FUNC", exp])
+                        outcome = "returns" if got is None else f"returns {got!r}"
+                    except Raised as r:
+                        outcome = "raises " + r.exc.split(".")[-1]
+                    except MagnitudeUse as mu:
+                        run.ob("K6", f"magnitude-use@{getattr(mu.node, 'lineno', 0)}")
+                        if not magnitude_reported:
+                            magnitude_reported = True
+                            run.violate("K6", f"{DIMS}:assert_equivalent_dimension:scale-factor-use:{norm(mu.node, 60)}", m, mu.node,
+                                        f"{mu.what} in `{norm(mu.node, 70)}` ({ak} of dimension {an} against {ek} {en}): the verdict may depend on the magnitude")
+                        continue
+                    # the property's table
+                    if ek == "zero quantity":
+                        want = {"returns"}
+                    elif ak == "symbolic quantity":
+                        want = {"raises UnitsError", "raises TypeError", "raises ValueError"}
+                    elif ak in ("zero quantity", "infinite quantity", "NaN quantity"):
+                        want = {"returns"}
+                    else:
+                        ea, ee = a.erased(), e.erased()
+                        if ea == ee:
+                            want = {"returns"}
+                        elif ea.dimensionless():
+                            want = {"raises TypeError"}
+                        else:
+                            want = {"raises UnitsError"}
+                    if outcome not in want:
+                        key = (ak if ak in ("symbolic quantity", ) else "", ek if ek == "zero quantity" else "", outcome, tuple(sorted(want)),
+                               "angle" in an or "angle" in en)
+                        if key in reported:
+                            continue
+                        reported.add(key)
+                        run.violate("K4", f"{DIMS}:assert_equivalent_dimension:{ak}[{an}]-vs-{ek}[{en}]", m, fnode,
+                                    f"assert_equivalent_dimension({ak} of dimension {an}, expected {ek} of dimension {en}) {outcome}; the property demands: {' or '.join(sorted(want))}"
+                                    + (" (angle counts as dimensionless on both sides)" if "angle" in an or "angle" in en else ""))
+    run.ob("K4", "outcome-table", n=n_cases)
+    run.ob("K6", "opaque-scale-factor", n=n_cases)
     # error classes
     err = run.src.need("symplyphysics.core.errors")
-    cls = next((s for s in err.tree.body if isinstance(s, ast.ClassDef) and s.name == "UnitsError"), None)
+    cls = next((s_ for s_ in err.tree.body if isinstance(s_, ast.ClassDef) and s_.name == "UnitsError"), None)
     run.require(cls is not None, "UnitsError not found")
     run.ob("K4", "UnitsError<ValueError")
     if not any(dotted(b) == "ValueError" for b in cls.bases):
         run.violate("K4", "symplyphysics.core.errors:UnitsError:bases", err, cls, "UnitsError is no longer a ValueError")
-    run.sample({"function": f.qual, "type_error_test": [f.line(t) for t in t1], "units_error_test": [f.line(t) for t in t2], "escape_returns": [f.line(e) for e in escapes]})
-
-
-def _t1_shape(test: ast.AST) -> bool:
-    """is_dimensionless(arg) and not is_dimensionless(expected_unit)"""
-    if not (isinstance(test, ast.BoolOp) and isinstance(test.op, ast.And) and len(test.values) == 2):
-        return False
-    a, b = test.values
-    pos = [v for v in (a, b) if isinstance(v, ast.Call)]
-    neg = [v.operand for v in (a, b) if isinstance(v, ast.UnaryOp) and isinstance(v.op, ast.Not) and isinstance(v.operand, ast.Call)]
-    if len(pos) != 1 or len(neg) != 1:
-        return False
-    return dotted(pos[0].func) == "dimsys_SI.is_dimensionless" and dotted(neg[0].func) == "dimsys_SI.is_dimensionless" \
-        and [dotted(x) for x in pos[0].args] == ["arg"] and [dotted(x) for x in neg[0].args] == ["expected_unit"]
-
-
-def _t2_shape(test: ast.AST) -> bool:
-    if isinstance(test, ast.UnaryOp) and isinstance(test.op, ast.Not) and isinstance(test.operand, ast.Call):
-        c = test.operand
-        return dotted(c.func) == "dimsys_SI.equivalent_dims" and sorted(dotted(x) or "" for x in c.args) == ["arg", "expected_unit"]
-    return False
-
-
-def _escape_test(f: Fn, test: ast.AST) -> bool:
-    vals = test.values if isinstance(test, ast.BoolOp) and isinstance(test.op, ast.Or) else [test]
-    for v in vals:
-        if not isinstance(v, ast.Call):
-            return False
-        d = dotted(v.func)
-        if d == "is_any_dimension":
-            continue
-        if d == "isinstance" and len(v.args) == 2 and dotted(v.args[1]) == "AnyDimension":
-            continue
-        return False
-    return True
-
-
-def _is_angle_subs(d) -> bool:
-    a = d.ast
-    if not isinstance(a, ast.Assign):
-        return False
-    v = a.value
-    return isinstance(v, ast.Call) and isinstance(v.func, ast.Attribute) and v.func.attr == "subs" and len(v.args) == 2 \
-        and isinstance(v.args[0], ast.Constant) and v.args[0].value == "angle" and dotted(v.args[1]) in ("S.One", "1") \
-        and isinstance(v.func.value, ast.Name) and len(a.targets) == 1 and isinstance(a.targets[0], ast.Name) \
-        and a.targets[0].id == v.func.value.id
-
-
-NUMERIC_CONVERSIONS = {"complex", "float", "int", "abs", "round", "N", "evalf", "n", "is_zero", "isinf", "isnan", "isfinite", "isclose", "sqrt", "log", "exp", "Abs"}
+    run.sample({"function": f"{DIMS}:assert_equivalent_dimension", "cases": n_cases})
 
 
 def _membership(v: ast.AST, param: str):
@@ -502,40 +498,6 @@ def _k5(run: Run, w: World) -> None:
     elif accepted - want:
         run.violate("K5", f"{f.qual}:set", f.mod, rets[0].ast, f"any-dimension values include {sorted(accepted - want)}")
     run.sample({"function": f.qual, "set": sorted(accepted)})
-
-
-def _k6(run: Run, w: World) -> None:
-    run.rule("K6", "the scale factor of the argument is used only by is_number, is_any_dimension and the error text: the verdict cannot depend on magnitude")
-    f = Fn(w, DIMS, "assert_equivalent_dimension", inline=True)
-    factors = set()
-    for n, c in f.calls(COLLECT):
-        st = n.ast
-        if isinstance(st, ast.Assign) and len(st.targets) == 1 and isinstance(st.targets[0], ast.Tuple) and len(st.targets[0].elts) == 2 \
-                and isinstance(st.targets[0].elts[0], ast.Name):
-            factors.add(st.targets[0].elts[0].id)
-        else:
-            raise AnalysisError(f"C04/K6: result of collect_quantity_factor_and_dimension is not destructured as (factor, dimension) at line {f.line(c)}")
-    run.require(len(factors) >= 1, "no scale factor variable found in assert_equivalent_dimension")
-    parents = {}
-    for p in ast.walk(f.fn):
-        for ch in ast.iter_child_nodes(p):
-            parents[id(ch)] = p
-    for x in ast.walk(f.fn):
-        if isinstance(x, ast.Name) and isinstance(x.ctx, ast.Load) and x.id in factors:
-            run.ob("K6", f"use:{x.id}@{x.lineno}")
-            p = parents.get(id(x))
-            ok = False
-            if isinstance(p, ast.Call) and dotted(p.func) in ("is_number", "is_any_dimension") and len(p.args) == 1 and p.args[0] is x:
-                ok = True
-            q = p
-            while q is not None and not ok:
-                if isinstance(q, ast.JoinedStr):
-                    ok = True
-                q = parents.get(id(q))
-            if not ok:
-                run.violate("K6", f"{f.qual}:scale-factor-use:{norm(stmt_of(f.fn, x) or x, 70)}", f.mod, x,
-                            f"scale factor `{x.id}` is used in `{norm(stmt_of(f.fn, x) or x, 70)}`: the verdict may depend on the magnitude")
-    run.sample({"function": f.qual, "scale_factor_variables": sorted(factors)})
 
 
 def _k7(run: Run, w: World) -> None:
@@ -659,6 +621,5 @@ def check(run: Run) -> None:
     _k3(run, w)
     _k4(run, w)
     _k5(run, w)
-    _k6(run, w)
     _k7(run, w)
     _k8(run, w)
